@@ -1,6 +1,7 @@
 //! vcheck: one module per property (C15 lives in vderive).
 
 pub mod util;
+pub mod hyph;
 pub mod c01;
 pub mod c02;
 pub mod c03;
